@@ -77,8 +77,9 @@ fn schedule_history() -> BoxedStrategy<History> {
         vec(start, 1..=3),
         vec(round, 4..70),
         prop_oneof![3 => Just(None), 1 => (0usize..40, 0u8..3).prop_map(Some)],
+        0u8..8,
     )
-        .prop_map(|(tcp, starts, rounds, cancel)| {
+        .prop_map(|(tcp, starts, rounds, cancel, tick)| {
             let mut ops = vec![];
             for (k, (dest, seal, payload, cfg, gap)) in starts.into_iter().enumerate() {
                 match cfg {
@@ -114,7 +115,7 @@ fn schedule_history() -> BoxedStrategy<History> {
                     ops.push(Op::Poll);
                 }
             }
-            History { tcp, ops, remote: 0 }
+            History { tcp, ops, remote: 0, tick }
         })
         .boxed()
 }
@@ -202,7 +203,7 @@ pub fn run(ctx: &Ctx) -> EvidenceMeta {
     }
     // fixed grid of configurations polled exactly, including schedules longer than one hour
     let mut items = vec![];
-    for tcp in [false, true] {
+    for (tcp, tick) in [(false, 0u8), (true, 0), (false, 7), (true, 6), (false, 5)] {
         for (rto, n, last) in [
             (1u32, 0u8, 0u32),
             (1, 8, 0),
@@ -229,7 +230,7 @@ pub fn run(ctx: &Ctx) -> EvidenceMeta {
                     ops.push(Op::Poll);
                     ops.push(Op::Poll);
                 }
-                items.push(History { tcp, ops, remote: 0 });
+                items.push(History { tcp, ops, remote: 0, tick });
             }
         }
     }
